@@ -885,6 +885,23 @@ var c04VarFams = []*c04VarFam{
 			c04V("WhileIWithContext", ro.WhileIWithContext[int](func(c c04Ctx, _ int64) (c04Ctx, bool) { n4++; return c, n4 <= k })),
 		}
 	}},
+	{name: "DoWhileI", mk: func(k int, lg *c04Log, _ []int) []c04Variant {
+		// the index handed to the condition is the zero-based number of the completed run
+		var n1 int64
+		return []c04Variant{
+			c04V("DoWhileI", ro.DoWhileI[int](func(i int64) bool { return int(i) < k })),
+			c04V("DoWhileIWithContext", ro.DoWhileIWithContext[int](func(c c04Ctx, i int64) (c04Ctx, bool) { return c, int(i) < k })),
+			c04V("DoWhile+counter", ro.DoWhile[int](func() bool { n1++; return int(n1-1) < k })),
+		}
+	}},
+	{name: "WhileI", mk: func(k int, lg *c04Log, _ []int) []c04Variant {
+		var n1 int64
+		return []c04Variant{
+			c04V("WhileI", ro.WhileI[int](func(i int64) bool { return int(i) < k })),
+			c04V("WhileIWithContext", ro.WhileIWithContext[int](func(c c04Ctx, i int64) (c04Ctx, bool) { return c, int(i) < k })),
+			c04V("While+counter", ro.While[int](func() bool { n1++; return int(n1-1) < k })),
+		}
+	}},
 	{name: "Head", loose: true, mk: func(k int, lg *c04Log, _ []int) []c04Variant {
 		yes := func(int) bool { return true }
 		return []c04Variant{
